@@ -12,6 +12,8 @@ import DtailModel.Model.Wire
 import DtailModel.Model.Grep
 import DtailModel.Model.Discovery
 import DtailModel.Model.Color
+import DtailModel.Model.Command
+import DtailModel.Model.Base64
 open Dtail
 
 structure Res where
@@ -192,6 +194,104 @@ def opC16Write : List String → Res
     | none => bad
   | _ => bad
 
+/-! C10 / C12 -/
+
+def env10 : Env :=
+  { b64dec := b64decode, compiles := fun p => !containsSub p (b!"[z-a]"), fl := fun _ => none }
+
+def renderDecoded (ds : List DecodedCmd) : String :=
+  if ds.isEmpty then "none" else
+  joinWith " " (ds.map fun d =>
+    s!"{hexOf d.name}/{d.argc}/{joinWith "," (d.args.map hexOf)}/{d.ltx.before},{d.ltx.after},{d.ltx.maxc}")
+
+def boolStr (b : Bool) : String := if b then "true" else "false"
+
+def renderModes (m : Bool × Bool × Bool) : String := s!"modes={boolStr m.1},{boolStr m.2.1},{boolStr m.2.2}"
+
+def outcomeTag {α : Type} : Outcome α → String
+  | .ok _ => "ok" | .err _ => "err" | .panic _ => "panic"
+
+def opC10Decode : List String → Res
+  | [h] => match unhex h with
+    | some stream =>
+      let rs := (serverCommands stream).map (decodeCommand env10)
+      match rs.find? (·.isPanic) with
+      | some (.panic p) => { m := "PANIC " ++ p, s := "no-panic" }
+      | _ =>
+        let ds := rs.filterMap (fun r => match r with | .ok d => some d | _ => none)
+        let errs := (rs.filter (fun r => match r with | .err _ => true | _ => false)).length
+        { m := s!"{renderDecoded ds};errs={errs};{renderModes (sessionModes ds)}", s := "no-panic",
+          t := joinWith "," ((if errs > 0 then ["decode-error"] else []) ++ (if ds.length > 1 then ["multi"] else [])
+            ++ (if ds.any (·.options.isSome) then ["options"] else [])
+            ++ (if ds.any (fun d => d.ltx != {}) then ["ltx"] else [])) }
+    | none => bad
+  | _ => bad
+
+def actionTag : Action → String
+  | .errorMessage _ => "error" | .read .. => "read" | .map .. => "map" | .ack _ => "ack"
+
+def existsMarker : Bytes := b!"/c10-exists.txt"
+
+def opC10Run : List String → Res
+  | [h] => match unhex h with
+    | some stream =>
+      let rs := (serverCommands stream).map (handleCommand env10)
+      -- a reader that is started allocates the before-ring
+      let starts : List (Outcome Unit) := rs.map fun r => match r with
+        | Outcome.ok ⟨.read _ ltx glob _, _⟩ => if hasSuffix existsMarker glob then readerStart ltx else Outcome.ok ()
+        | Outcome.panic p => Outcome.panic p
+        | _ => Outcome.ok ()
+      let huge := rs.any fun r => match r with
+        | .ok ⟨.read _ ltx _ _, _⟩ => ltx.before > 65536
+        | _ => false
+      match starts.find? (·.isPanic) with
+      | some (.panic p) => { m := "CRASH " ++ p, s := "no-crash", g := if huge then "huge-before" else "-", t := "panic" }
+      | _ =>
+        let acts := rs.filterMap (fun r => match r with | .ok hd => some hd.action | _ => none)
+        -- an error/warning message per rejected command, and one per read of a missing file
+        let errs := (acts.filter (fun a => match a with
+          | .errorMessage _ => true
+          | .read _ _ glob _ => !hasSuffix existsMarker glob
+          | _ => false)).length
+        let lines := acts.any fun a => match a with
+          | .read .cat _ glob re => hasSuffix existsMarker glob ∧ re.flag = .noop
+          | _ => false
+        { m := s!"errs={errs};lines={if lines then 1 else 0}", s := "no-crash",
+          t := joinWith "," (acts.map actionTag).eraseDups }
+    | none => bad
+  | _ => bad
+
+def opC12Roundtrip : List String → Res
+  | [mode, quiet, plain, before, after, maxc, invert, file, pattern] =>
+    match before.toInt?, after.toInt?, maxc.toInt?, unhex file, unhex pattern with
+    | some b, some a, some m, some file, some pattern =>
+      let mk (f : Bytes) : Req := Req.mk (str mode) (quiet = "1") (plain = "1") true ⟨b, a, m⟩ f pattern (invert = "1")
+      -- one command per file of the comma separated list
+      let files := splitOnByte COMMA file
+      let streams := files.map fun f => sendMessage b64encode (makeCommand (mk f) (optionList showInt (mk f)))
+      -- the client handler's Read copies the command into a 32 KiB buffer
+      let streams := streams.map (·.take 32768)
+      let rs := streams.flatMap fun st => (serverCommands st).map (decodeCommand env10)
+      let ds := rs.filterMap (fun r => match r with | .ok d => some d | _ => none)
+      -- the specification: what the user asked for, per file
+      let flag := clientFlag pattern (invert = "1")
+      let want := files.map fun f =>
+        s!"{hexOf (str mode)}|{hexOf f}|{hexOf (flagName flag)}|{hexOf (if flag = .noop then [] else pattern)}|{b},{a},{m}"
+      let got := ds.map fun d =>
+        let re := match regexDeserialize env10 (joinByte SP (d.args.drop 2)) with
+          | .ok r => s!"{hexOf (flagName r.flag)}|{hexOf r.pattern}" | _ => "regex-error"
+        s!"{hexOf d.name}|{hexOf (d.args.getD 1 [])}|{re}|{d.ltx.before},{d.ltx.after},{d.ltx.maxc}"
+      let wantModes := s!"modes={boolStr (quiet = "1")},{boolStr (plain = "1")},true"
+      { m := s!"{renderDecoded ds};{renderModes (sessionModes ds)}",
+        s := joinWith " " want ++ ";" ++ wantModes,
+        g := if (streams.any (·.length ≥ 32768)) then "long-command" else if file.contains SP then "space-in-file" else "-",
+        t := joinWith "," ((if pattern.contains SP then ["space"] else []) ++ (if flag = .noop then ["noop"] else [])
+            ++ (if pattern.any (· ≥ 128) then ["non-ascii"] else []) ++ (if files.length > 1 then ["multi-file"] else [])
+            ++ (if b ≠ 0 ∨ a ≠ 0 ∨ m ≠ 0 then ["ltx"] else [])
+            ++ (if pattern.any (fun c => c = COLON ∨ c = SEMI ∨ c = COMMA ∨ c = PERCENT ∨ c = EQ) then ["special"] else [])) }
+    | _, _, _, _, _ => bad
+  | _ => bad
+
 def dispatch (line : String) : Res :=
   match (line.splitOn " ").filter (· ≠ "") with
   | "c01.reader" :: a => opC01Reader a
@@ -199,6 +299,9 @@ def dispatch (line : String) : Res :=
   | "c01.e2e" :: a => opC01E2E a
   | "c03.grep" :: a => opC03Grep a
   | "c03.e2e" :: a => opC03E2E a
+  | "c10.decode" :: a => opC10Decode a
+  | "c10.run" :: a => opC10Run a
+  | "c12.roundtrip" :: a => opC12Roundtrip a
   | "c16.colorfy" :: a => opC16Colorfy a
   | "c16.write" :: a => opC16Write a
   | "c18.list" :: a => opC18List a
